@@ -8,6 +8,8 @@ import (
 	"verif/harness/checks/c02"
 	"verif/harness/checks/c03"
 	"verif/harness/checks/c05"
+	"verif/harness/checks/c06"
+	"verif/harness/checks/c07"
 	"verif/harness/vf"
 )
 
@@ -16,6 +18,8 @@ var checks = map[string]func(*vf.Check){
 	"C02": c02.Run,
 	"C03": c03.Run,
 	"C05": c05.Run,
+	"C06": c06.Run,
+	"C07": c07.Run,
 }
 
 func main() {
